@@ -148,10 +148,12 @@ func (fc *FuncCtx) checkGuard(fr *Frame, st *State, p PlaceV, pos token.Pos, wri
 		}
 		key := "L!O!" + typeKey(t) + "." + g.Lock
 		var held string
+		rmode := "false" // the lock is held in read mode only (RWMutex.RLock)
 		if lt, lf := fc.eng.foreignLock(g); lt != nil {
 			held = fc.foreignHeld(st, lt, lf)
 		} else {
 			held = fc.heldTerm(st, key, p.Idx[0])
+			rmode = fc.heldTerm(st, "L!R!"+key, p.Idx[0])
 		}
 		if stt, ok := t.Underlying().(*types.Struct); ok && !strings.Contains(g.Lock, ".") {
 			for i := 0; i < stt.NumFields(); i++ {
@@ -163,6 +165,7 @@ func (fc *FuncCtx) checkGuard(fr *Frame, st *State, p PlaceV, pos token.Pos, wri
 						lp.Typ = stt.Field(i).Type()
 						if lv, ok := fc.loadPlace(st, lp).(Scalar); ok {
 							held = fc.heldTerm(st, "L!bare", lv.T)
+							rmode = fc.heldTerm(st, "L!R!L!bare", lv.T)
 						}
 					}
 				}
@@ -175,8 +178,10 @@ func (fc *FuncCtx) checkGuard(fr *Frame, st *State, p PlaceV, pos token.Pos, wri
 		acc := "read"
 		if write {
 			acc = "write"
+			// a write needs the lock in write mode (not RLock)
+			held = tAnd(held, tNot(rmode))
 		}
-		fc.oblige(fr, st, "guard."+g.Type+"."+g.Field, "", held, pos, acc+" of "+g.Type+"."+g.Field+" happens with "+g.Lock+" held")
+		fc.oblige(fr, st, "guard."+g.Type+"."+g.Field, "", held, pos, acc+" of "+g.Type+"."+g.Field+" happens with "+g.Lock+" held"+map[bool]string{true: " in write mode", false: ""}[write])
 		fc.props = saved
 	}
 }
@@ -221,12 +226,18 @@ func (fc *FuncCtx) checkGlobalGuard(fr *Frame, st *State, p PlaceV, pos token.Po
 				fc.unsupported("guarded global %s: lock variable %s is not a pointer value", g.Field, g.Lock)
 			}
 			held = fc.heldTerm(st, "L!bare", lv.T)
+			if write {
+				held = tAnd(held, tNot(fc.heldTerm(st, "L!R!L!bare", lv.T)))
+			}
 		} else {
 			held = fc.heldTerm(st, "L!G!"+globalKey(lg), "0")
+			if write {
+				held = tAnd(held, tNot(fc.heldTerm(st, "L!R!L!G!"+globalKey(lg), "0")))
+			}
 		}
 		acc := "read"
 		if write {
-			acc = "write"
+			acc = "write (needs the lock in write mode)"
 		}
 		fc.oblige(fr, st, "guard.global."+g.Field, "", held, pos, acc+" of package-level "+g.Field+" happens with "+g.Lock+" held")
 	}
